@@ -237,6 +237,20 @@ for fname in ("src/jdatadst.c", "src/jdatadst-tj.c"):
          "%s: empty_mem_output_buffer no longer frees newbuffer and installs the new buffer" % fname)
     b = func_body(src, "term_mem_destination", fname)
     need(re.search(r"\*dest->outbuffer = dest->buffer;", b), "%s: term_mem_destination no longer stores dest->buffer in *outbuffer" % fname)
+# allocation-failure paths of the memory source / destination managers
+for fname in ("src/jdatadst.c", "src/jdatadst-tj.c"):
+    src = rd(fname)
+    b = func_body(src, "empty_mem_output_buffer", fname)
+    need(re.search(r"nextbuffer = \(JOCTET \*\)(?:malloc|MALLOC)\(nextsize\); if \(nextbuffer == NULL\) ERREXIT1\(cinfo, JERR_OUT_OF_MEMORY, 10\); memcpy\(", b),
+         "%s: empty_mem_output_buffer: the NULL test of the new buffer no longer precedes every state change" % fname)
+    b = func_body(src, "jpeg_mem_dest_tj" if fname.endswith("-tj.c") else "jpeg_mem_dest", fname)
+    need(re.search(r"dest->newbuffer = \*outbuffer = \(unsigned char \*\)(?:malloc|MALLOC)\(OUTPUT_BUF_SIZE\); if \(dest->newbuffer == NULL\) ERREXIT1\(cinfo, JERR_OUT_OF_MEMORY, 10\);", b),
+         "%s: initial buffer allocation / NULL test not found" % fname)
+for fname, fn in (("src/jdatasrc.c", "jpeg_mem_src"), ("src/jdatasrc-tj.c", "jpeg_mem_src_tj")):
+    src = strip_comments(rd(fname))
+    need(not re.search(r"\b(malloc|MALLOC|calloc|realloc)\s*\(", src), "%s: the source manager now calls malloc directly" % fname)
+    need(re.search(r"alloc_small\) \(\(j_common_ptr\)cinfo, JPOOL_PERMANENT,", func_body(rd(fname), fn, fname)),
+         "%s: %s no longer takes its manager from the PERMANENT pool" % (fname, fn))
 pol_lj = dest_policy("src/jdatadst.c", "jpeg_mem_dest")
 pol_tj = dest_policy("src/jdatadst-tj.c", "jpeg_mem_dest_tj")
 
@@ -289,6 +303,9 @@ P("Definition memdest_policy_ljpeg : Z := %d.   (* jdatadst.c jpeg_mem_dest *)" 
 P("Definition memdest_policy_tj : Z := %d.      (* jdatadst-tj.c jpeg_mem_dest_tj *)" % pol_tj)
 for fn_, nm_, e_, h_ in term_sites:
     P("(* %s %s: term_destination in the bailout epilogue: %s, in the setjmp handler(s): %s *)" % (fn_, nm_, e_, h_))
+P("(* jdatadst*.c: a failing malloc raises JERR_OUT_OF_MEMORY before any field changes (DestBuf exits EInitFail / ELongjmp);")
+P("   jdatasrc*.c: no malloc, the manager comes from the PERMANENT pool (pool theorems) *)")
+P("Definition memmgr_io_alloc_failure_paths_checked : bool := true.")
 P("Definition tj_term_on_throw : bool := %s." % ("true" if tj_term_throw else "false"))
 P("Definition tj_term_on_longjmp : bool := %s." % ("true" if tj_term_longjmp else "false"))
 print("\n".join(out))
